@@ -3,7 +3,7 @@ from itertools import groupby
 
 from mypy.nodes import ArgKind, CallExpr, DictExpr, RefExpr
 
-from refurb.checks.common import is_mapping, stringify
+from refurb.checks.common import is_mapping, stringify, stringify_operand
 from refurb.error import Error
 from refurb.settings import Settings
 
@@ -73,7 +73,7 @@ def check(node: DictExpr | CallExpr, errors: list[Error], settings: Settings) ->
                             return
 
                         old.append(f"**{stringify(star_expr)}")
-                        new.append(stringify(star_expr))
+                        new.append(stringify_operand(star_expr, "|"))
 
                         index += 1
 
